@@ -51,6 +51,13 @@ func c11Run(rc *simrt.RunCtx) {
 		rl.f.delErrPm = []int{300, 1000}[rc.Pick(2, "relay.k.delerrpm")]
 		rc.Knob("relay.delerr", rl.f.delErrPm)
 	}
+	if rc.Pick(3, "relay.k.garbage") == 0 {
+		// the first message ever received on a stream id is garbage: the
+		// GBN handshake on it fails, Dial / Accept return an error (also the
+		// first ones at a new rendezvous) and are called again
+		rl.f.garbagePm = []int{300, 1000}[rc.Pick(2, "relay.k.garbagepm")]
+		rc.Knob("relay.garbage-first", rl.f.garbagePm)
+	}
 	if rc.Pick(3, "knob.close-error") == 0 {
 		// closing the client's transport reports an error (an already broken
 		// websocket does): the connection must count as closed all the same
